@@ -41,7 +41,7 @@ def run_oracle(job, tab, lltab=None, outl=True, check_def=True, workers=None, ti
     mc = "---- MODULE MC_GridOracle ----\nEXTENDS GridOracle\nLDef == %s\nLLDef == %s\n====\n" % (tla_tab(tab), tla_tab(lltab))
     cfg = tlc.cfg_text(constants={"N": n, "G": grid, "D": dims, "OutliersOn": tlc.tla_bool(outl), "L": "<- LDef", "LL": "<- LLDef",
                                   "CheckDef": tlc.tla_bool(check_def), "Dump": "TRUE"},
-                       invariants=["RecursionIsDefinition", "MaxProductIsOptimal", "Emit"])
+                       invariants=["RecursionIsDefinition", "MaxProductIsOptimal", "TracebackIsOptimal", "Emit"])
     r = tlc.run_tlc(job, "MC_GridOracle", cfg, mc_text=mc, workers=workers, timeout=timeout)
     tlc.require_ok(r, "GridOracle")
     table = {}
